@@ -8,6 +8,7 @@
 //!   vh record <family> ...  run the real code on generated inputs and write an ndjson trace
 
 mod astb;
+mod astjson;
 mod exec;
 mod fam;
 mod jv;
@@ -57,6 +58,45 @@ impl Verdict {
     }
     pub fn to_json(&self) -> J {
         json!({"st": self.st, "nontrivial": self.nontrivial, "msg": self.msg, "obs": self.obs})
+    }
+}
+
+/// A second process of this binary answering one line per request (used for cross-process determinism).
+pub struct Helper {
+    child: std::process::Child,
+    stdin: std::process::ChildStdin,
+    stdout: std::io::BufReader<std::process::ChildStdout>,
+}
+impl Helper {
+    pub fn spawn(family: &str) -> Helper {
+        let mut child = std::process::Command::new(std::env::current_exe().unwrap())
+            .arg("worker")
+            .arg(family)
+            .stdin(std::process::Stdio::piped())
+            .stdout(std::process::Stdio::piped())
+            .stderr(std::process::Stdio::null())
+            .spawn()
+            .expect("cannot start helper process");
+        let stdin = child.stdin.take().unwrap();
+        let stdout = std::io::BufReader::new(child.stdout.take().unwrap());
+        Helper { child, stdin, stdout }
+    }
+    pub fn ask(&mut self, rec: &J) -> Option<J> {
+        writeln!(self.stdin, "{}", rec).ok()?;
+        self.stdin.flush().ok()?;
+        let mut line = String::new();
+        let n = self.stdout.read_line(&mut line).ok()?;
+        if n == 0 {
+            return None;
+        }
+        let v: J = serde_json::from_str(&line).ok()?;
+        Some(v["obs"].clone())
+    }
+}
+impl Drop for Helper {
+    fn drop(&mut self) {
+        let _ = self.child.kill();
+        let _ = self.child.wait();
     }
 }
 
